@@ -24,12 +24,23 @@ theorem C01_btc_sound {S : Type} [DecidableEq S] (amount : Nat) (want : S) (outs
     (h : validateBtc amount want outs = true) :
     ∃ o ∈ outs, o.value = wrapI64 (amount : Int) ∧ o.script = want := by
   unfold validateBtc at h
-  cases hf : outs.find? (fun o => o.value == wrapI64 (amount : Int)) with
+  cases hf : outs.find? (fun o => o.value == wrapI64 (amount : Int) && decide (o.script = want)) with
   | none => simp [hf] at h
   | some o =>
-    simp only [hf, decide_eq_true_eq] at h
     obtain ⟨hm, hp⟩ := find_some_mem _ _ _ hf
-    exact ⟨o, hm, by simpa using hp, h⟩
+    simp only [Bool.and_eq_true, beq_iff_eq, decide_eq_true_eq] at hp
+    exact ⟨o, hm, hp.1, hp.2⟩
+
+/-- … and accepts every transaction that has such an output, wherever it stands -/
+theorem C01_btc_complete {S : Type} [DecidableEq S] (amount : Nat) (want : S) (outs : List (BtcOut S))
+    (h : ∃ o ∈ outs, o.value = wrapI64 (amount : Int) ∧ o.script = want) : validateBtc amount want outs = true := by
+  obtain ⟨o, hm, hv, hs⟩ := h
+  unfold validateBtc
+  cases hf : outs.find? (fun o => o.value == wrapI64 (amount : Int) && decide (o.script = want)) with
+  | some _ => rfl
+  | none =>
+    have := List.find?_eq_none.mp hf o hm
+    simp [hv, hs] at this
 
 /-- for amounts a wallet can hold the value is the amount itself -/
 theorem C01_btc_amount (amount : Nat) (h : amount < 9223372036854775808) : wrapI64 (amount : Int) = (amount : Int) := by
@@ -143,9 +154,10 @@ theorem C01_pay_only_after_confirmation :
 /-- required depths are the generated constants: 3 Bitcoin / 2 Liquid confirmations -/
 theorem C01_depths : bitcoinMinConfs = 3 ∧ liquidConfs = 2 := by decide
 
--- non-vacuity; and the order sensitivity of the Bitcoin check (first output of the amount decides)
+-- non-vacuity; an output of the same value in front of the swap output does not matter
 example : validateBtc 1000 "w" [⟨500, "x"⟩, ⟨1000, "w"⟩] = true := by decide
-example : validateBtc 1000 "w" [⟨1000, "change"⟩, ⟨1000, "w"⟩] = false := by decide
+example : validateBtc 1000 "w" [⟨1000, "change"⟩, ⟨1000, "w"⟩] = true := by decide
+example : validateBtc 1000 "w" [⟨1000, "change"⟩, ⟨999, "w"⟩] = false := by decide
 example : validateLq 1000 "w" [⟨"x", none, false, false, false⟩, ⟨"w", some ⟨true, 1000⟩, false, true, false⟩] = true := by decide
 example : validateLq 1000 "w" [⟨"w", some ⟨false, 1000⟩, false, true, false⟩] = false := by decide
 
